@@ -153,7 +153,10 @@ def body_E1(ctx):
     sh = ctx.shard
     faults = Faults(ctx, sh.get("F", 2))
     mkexc = FAULT_EXC[int(sh.get("fault_exc", 0))]
-    vname, vmake = HOSTILE[ctx.choose(len(HOSTILE), "value")]
+    if sh.get("xself"):
+        vname, vmake = HOSTILE[0]  # the value does not matter for this shard
+    else:
+        vname, vmake = HOSTILE[ctx.choose(len(HOSTILE), "value")]
     V = vmake()
 
     def ser(v):
@@ -175,6 +178,13 @@ def body_E1(ctx):
         return {"payload": e.payload}
 
     register_exception_extractor(AppError, extractor)
+    if sh.get("xself"):
+        # an extractor that is simply broken: it fails on every call, and what it raises is of the
+        # very class it is registered for (e.g. registered for ValueError, it raises ValueError)
+        def always_failing(e):
+            raise AppError("extractor is broken")
+
+        register_exception_extractor(AppError, always_failing)
     if sh.get("xchain"):
         # a second extractor, for the class of the exception the first one fails with (IOError):
         # it may fail as well, while the report about the first failure is being written
@@ -202,12 +212,19 @@ def body_E1(ctx):
 
     called = []
 
+    XSELF_SIG = "C07:extractor-raising-its-own-class-recursion"
+
+    def _sig(e):
+        # the one known defect: an extractor that always fails with an exception of the class it is
+        # registered for makes the failure reporting recurse until RecursionError
+        return XSELF_SIG if sh.get("xself") and isinstance(e, RecursionError) else None
+
     def guard(what, fn):
         """A logging call: must return normally."""
         try:
             return fn()
         except Exception as e:
-            ctx.fail("%s raised %r for value %s with faults %r" % (what, e, vname, faults.injected))
+            ctx.fail("%s raised %r for value %s with faults %r" % (what, e, vname, faults.injected), sig=_sig(e))
 
     # the message type itself is part of what is being logged: text, or (shard "mtype") an enum
     # member, an int, None or bytes
@@ -256,7 +273,7 @@ def body_E1(ctx):
         except AppError as got:
             ctx.check(got is e, "a different exception object propagated: %r", got)
         except Exception as other:
-            ctx.fail("the application's exception was replaced by %r (value %s, faults %r)" % (other, vname, faults.injected))
+            ctx.fail("the application's exception was replaced by %r (value %s, faults %r)" % (other, vname, faults.injected), sig=_sig(other))
         else:
             ctx.fail("the application's exception was swallowed")
 
@@ -308,11 +325,26 @@ def body_E1(ctx):
             ctx.fail("log_call swallowed the application's exception")
 
     kinds = [k_log_message, k_action_log, k_message_old, k_typed_message, k_with_ok, k_with_raise, k_typed_action, k_explicit_finish, k_traceback, k_log_call]
-    if sh.get("xchain") or sh.get("exc_kinds"):
+    if sh.get("xself"):
+        kinds = [k_with_raise, k_traceback]
+    elif sh.get("xchain") or sh.get("exc_kinds"):
         kinds = [k_with_raise, k_typed_action, k_explicit_finish, k_traceback, k_log_call]  # the kinds that consult extractors
     elif sh.get("only_kinds"):
         kinds = kinds[: int(sh["only_kinds"])] + [k_with_raise]
     k1 = kinds[ctx.choose(len(kinds), "first call")]
+    if sh.get("xself"):
+        # the known defect recurses to the interpreter's limit; a lower limit keeps that quick
+        # (the native replay runs with the default limit)
+        import sys as _sys
+
+        _old_limit = _sys.getrecursionlimit()
+        _sys.setrecursionlimit(min(_old_limit, len(__import__("inspect").stack()) + 150))
+        try:
+            k1(None)
+        finally:
+            _sys.setrecursionlimit(_old_limit)
+        ctx.nontrivial(("xself", k1.__name__))
+        return
     inner = None
     if sh.get("calls", 1) >= 2:
         j = ctx.choose(len(kinds) + 1, "second call")
@@ -404,6 +436,7 @@ def _e1_shards(tier):
         out += [dict(base, prefix=p) for p in enumerate_prefixes(body_E1, "X", {}, base, 1)]
         for ec in (3, 4):
             out.append({"calls": 1, "F": 1, "flaky_first": 1, "fault_exc": 0, "errcls": ec, "exc_kinds": 1})
+        out.append({"calls": 1, "F": 0, "flaky_first": 1, "fault_exc": 0, "errcls": 0, "xself": 1, "xkeys": 0, "only_value": 0})
         return out
     for ff, fe in ((1, 0), (0, 1)):
         base = {"calls": 2, "F": 2, "flaky_first": ff, "fault_exc": fe}
@@ -415,6 +448,7 @@ def _e1_shards(tier):
         out.append({"calls": 2, "F": 2, "flaky_first": mt % 2, "fault_exc": 0, "errcls": 0, "mtype": mt, "only_kinds": 2})
     for ec in (3, 4):
         out.append({"calls": 1, "F": 2, "flaky_first": 1, "fault_exc": 0, "errcls": ec, "exc_kinds": 1})
+    out.append({"calls": 1, "F": 0, "flaky_first": 1, "fault_exc": 0, "errcls": 0, "xself": 1, "xkeys": 0})
     return out
 
 
@@ -430,7 +464,7 @@ OBLIGATIONS = [
         twin=[{"calls": 1, "F": 2, "flaky_first": 1, "twin_label": "two-faults"}],
         timeout={"quick": 100, "thorough": 1500},
         path_timeout=60,
-        bounds={"quick": "one entry-point kind (each makes 1-4 logging calls) x 12 values x <= 2 injected faults at solver-chosen fault points, flaky destination before/after the real FileDestination; a chain of two extractors that may both fail (<= 3 faults); log_message / Action.log with a message type that is an enum member, an int, None or bytes (12 values, <= 2 faults)", "thorough": "two kinds (second nested inside the first's action where it has one) x 12 values x <= 2 faults for two fault-exception/ordering configurations; one kind x <= 3 faults for all five"},
+        bounds={"quick": "one entry-point kind (each makes 1-4 logging calls) x 12 values x <= 2 injected faults at solver-chosen fault points, flaky destination before/after the real FileDestination; a chain of two extractors that may both fail (<= 3 faults); an extractor that always fails with an exception of the class it is registered for (known finding); log_message / Action.log with a message type that is an enum member, an int, None or bytes (12 values, <= 2 faults)", "thorough": "two kinds (second nested inside the first's action where it has one) x 12 values x <= 2 faults for two fault-exception/ordering configurations; one kind x <= 3 faults for all five"},
     ),
     Ob("L1", L1, body_L1, "S", desc="safeunicode/saferepr/_safe_unicode_dictionary return str and never raise", functions=["safeunicode", "saferepr", "_safe_unicode_dictionary"], shards={"quick": [{"kind": "str"}, {"kind": "raising-dunders"}]}, twin=[{"kind": "str"}], timeout={"quick": 100, "thorough": 300}, bounds={"quick": "safeunicode on any str of length <= 4; all three helpers on objects whose __str__/__repr__ raise exceptions carrying any int"}),
 ]
